@@ -8,7 +8,33 @@ use rateslib::calendars::{Cal, NamedCal, UnionCal};
 use serde::{Deserialize, Serialize};
 
 /// Any finite double, from a mixture that stresses text round-tripping.
+/// Doubles that are special to some representation: exactly single-precision values that
+/// are not short decimals, powers of two, epsilons, signed zeros, extremes.
+pub const SPECIAL_DOUBLES: &[f64] = &[
+    0.1_f32 as f64,
+    0.99_f32 as f64,
+    1.1_f32 as f64,
+    9.5367431640625e-7, // 2^-20
+    4294967296.0,       // 2^32
+    9007199254740992.0, // 2^53
+    f64::EPSILON,
+    f64::MIN_POSITIVE,
+    5e-324,
+    0.0,
+    -0.0,
+    1.0,
+    -1.0,
+    0.5,
+    f64::MAX,
+    f64::MIN,
+    16777217.0, // 2^24 + 1: not an f32
+    0.30000000000000004,
+];
+
 pub fn raw_double(rng: &mut Rng) -> f64 {
+    if rng.chance(0.06) {
+        return *rng.pick(SPECIAL_DOUBLES);
+    }
     loop {
         let v = match rng.below(20) {
             0..=9 => f64::from_bits(rng.next_u64()),
@@ -42,6 +68,17 @@ pub fn raw_double(rng: &mut Rng) -> f64 {
 
 /// A double with a fully random mantissa and magnitude in [lo, hi] (lo > 0), random sign opt.
 pub fn awkward(rng: &mut Rng, lo: f64, hi: f64, signed: bool) -> f64 {
+    if rng.chance(0.05) {
+        // a special value that lies in the requested range
+        let c: Vec<f64> = SPECIAL_DOUBLES
+            .iter()
+            .cloned()
+            .filter(|v| v.abs() >= lo && v.abs() <= hi && (signed || *v > 0.0))
+            .collect();
+        if !c.is_empty() {
+            return *rng.pick(&c);
+        }
+    }
     let mag = rng.log_uniform(lo, hi);
     // randomise all low mantissa bits
     let bits = (mag.to_bits() & 0xFFFF_F000_0000_0000) | (rng.next_u64() & 0x0000_0FFF_FFFF_FFFF);
@@ -305,6 +342,36 @@ pub struct SolveSpec {
 }
 
 pub fn gen_spline(rng: &mut Rng) -> SplineSpec {
+    if rng.chance(0.05) {
+        // symmetric about the origin, built by mirroring: the knot at zero appears as
+        // 0.0 followed by -0.0 (non-decreasing under >=, legal for PPSpline::new)
+        // (a double knot needs order >= 3 to stay an admissible knot sequence)
+        let k = rng.usize_in(3, 5);
+        let m = rng.usize_in(1, 3);
+        let mut right: Vec<f64> = Vec::new();
+        let mut x = 0.0;
+        for _ in 0..m {
+            x += awkward(rng, 0.05, 5.0, false);
+            right.push(x);
+        }
+        let mut t: Vec<f64> = vec![-x; k - 1];
+        for v in right.iter().rev() {
+            t.push(-*v);
+        }
+        t.push(0.0);
+        t.push(-0.0);
+        for v in right.iter() {
+            t.push(*v);
+        }
+        t.extend(std::iter::repeat(x).take(k - 1));
+        return SplineSpec {
+            kind: rng.below(3) as u8,
+            k,
+            t: t.into_iter().map(Fx::new).collect(),
+            preset: None,
+            preset_share: false,
+        };
+    }
     let k = rng.usize_in(2, 5);
     let interior = rng.usize_in(0, 4);
     let a = awkward(rng, 0.1, 50.0, true);
